@@ -32,7 +32,11 @@ def execute(conf, hist):
     G = new_graph(conf)
     M = Model(conf)
     outs = []
-    for op in hist:
+    M.prev = None
+    for idx, op in enumerate(hist):
+        if idx == len(hist) - 1:
+            prev = M.clone()      # the model as it was before the last op (for transition oracles)
+            M.prev = prev
         exp = M.expected(op)
         out = apply_op(G, conf, op)
         M.commit(op, out)
